@@ -8,9 +8,11 @@ actors (mrp processes), at the granularity of martian/core/pipestance.go:
           f.Close()                                                                     --   (atomic
       } else if os.IsExist(err) {                                                       --    test-and-set
           return &PipestanceLockedError{…}                                              --    by the OS)
-      } else { log }                                                                    -- acquireErr p: ANY other error
-      util.RegisterSignalHandler(self)                                                  -- register p      (EPERM, ENOSPC, EROFS, EIO …):
-                                                                                        --                 logged, and Lock() goes on
+      } else { log; return err }                                                        -- acquireFail p: ANY other error (EPERM, ENOSPC,
+      util.RegisterSignalHandler(self)                                                  -- register p      EROFS, EIO, ENOENT …) is returned.
+                                                                                        --   Before the repair: `else { log }` and Lock()
+                                                                                        --   went on = acquireErr p.  Which of the two the
+                                                                                        --   code does: fact `Gen.c15LockCreateErrorIgnored`
       self.metadata.WriteTime(Lock)
       return nil
   }
@@ -21,9 +23,11 @@ actors (mrp processes), at the granularity of martian/core/pipestance.go:
   "delete the _lock file in … and start Martian again" (operator)                       -- rmLock
 
   Runtime.InvokePipeline (a START): directory must be empty; instantiatePipeline → Lock();      -- start p
-      on an instantiation error `os.RemoveAll(pipestancePath)` — since the repair of the
-      "refused start deletes the running pipestance" defect not when the error is
-      PipestanceLockedError (regenerated fact `Gen.c15RefusedStartRemovesDir`).
+      on an instantiation error the clean-up — since the repair of the "failed start deletes
+      the running pipestance" defects `os.RemoveAll(pipestancePath)` only when this call took
+      the lock, else `os.Remove` of the folder if it is still empty (regenerated fact
+      `Gen.c15RefusedStartRemovesDir`).  A start can fail BEFORE `Lock()` too (its source     -- startFail p
+      does not parse / compile, call graph error, …).
 
 The exclusive create is the regenerated fact `Gen.c15LockExclusive`.  There is no
 heartbeat and no automatic stale-lock takeover in the code: a lock left by a
@@ -50,15 +54,27 @@ inductive Act
   | signal (p : Nat)
   | kill (p : Nat)
   | rmLock
-  /-- `Lock()` when the create of `_lock` fails with an error other than "exists": the
+  /-- The code BEFORE the repair 89932cb (`Gen.c15LockCreateErrorIgnored = true`):
+  `Lock()` when the create of `_lock` fails with an error other than "exists": the
   error is logged, the signal handler is registered and `Lock()` returns nil although
-  no file was created.  (Its callers then fail on the first operation that needs the
-  lock — "Pipestance is in read only mode" — and `Unlock()`; that sequel is an
-  `unlock`-like step of its own, not part of this action.) -/
+  no file was created.  This describes an error that PERSISTS (EPERM on an immutable
+  directory, EROFS — what the harness injects): `metadata.WriteTime(Lock)` that follows
+  fails too and no file appears.  After a TRANSIENT error (EINTR, a momentary ENOSPC /
+  EIO) that second, NON-exclusive write would create `_lock` after all — possibly over
+  another process's; that outcome is not modelled (`lockFile` stays as it was here).
+  (The callers then fail on the first operation that needs the lock — "Pipestance is in
+  read only mode" — and `Unlock()`; that sequel is an `unlock`-like step of its own, not
+  part of this action.) -/
   | acquireErr (p : Nat)
+  /-- `Lock()` when the create of `_lock` fails with an error other than "exists" and the
+  error is RETURNED (the code since the repair): nothing is registered, nothing is written -/
+  | acquireFail (p : Nat)
   /-- `Runtime.InvokePipeline` by a second mrp that saw the directory still empty: `Lock()`,
   and on refusal the clean-up of `InvokePipeline` -/
   | start (p : Nat)
+  /-- `Runtime.InvokePipeline` by a second mrp that saw the directory still empty and fails
+  before it reaches `Lock()` (parse / compile / call-graph error of ITS source) -/
+  | startFail (p : Nat)
   deriving DecidableEq, Repr
 
 def drop (p : Nat) (l : List Nat) : List Nat := l.filter (· != p)
@@ -86,6 +102,8 @@ def step (regFirst startRm : Bool) (s : St) : Act → St × Bool
       if s.lockFile then
         (if startRm then { s with lockFile := false } else s, false)
       else ({ s with lockFile := true, holders := p :: s.holders }, true)
+  | .startFail _ => (if startRm then { s with lockFile := false } else s, false)
+  | .acquireFail _ => (s, false)
 
 /-- what the code structure allows: `register` only by an owner that has not yet
 registered, `unlock` only by an owner, `acquire` only by a process that does not
@@ -100,14 +118,23 @@ def enabled (s : St) : Act → Bool
   | .rmLock => true
   | .acquireErr p => !s.holders.contains p
   | .start p => !s.holders.contains p
+  | .startFail p => !s.holders.contains p
+  | .acquireFail p => !s.holders.contains p
 
-/-- the two remaining assumptions: the operator deletes `_lock` only when no
-process owns the pipestance; the create of `_lock` either succeeds or fails with
-"exists" (no `acquireErr`: see `lts_create_error_breaks_exclusion`) -/
+/-- the remaining assumption: the operator deletes `_lock` only when no process owns
+the pipestance.  `acquireErr` (a create error that is IGNORED) is excluded too; since
+the repair 89932cb that is not an assumption about the environment any more but the
+regenerated fact `Gen.c15LockCreateErrorIgnored = false`: a create error is returned
+(`acquireFail`, allowed here; `Props.C15.lts_create_error_changes_nothing`); negative
+witness for the old code: `lts_create_error_breaks_exclusion` -/
 def disciplined (s : St) : Act → Bool
   | .rmLock => s.holders.isEmpty
   | .acquireErr _ => false
   | _ => true
+
+/-- what `Lock()` does when the exclusive create fails with an error other than "exists",
+as a function of the regenerated fact `Gen.c15LockCreateErrorIgnored` -/
+def createErr (ignored : Bool) (p : Nat) : Act := if ignored then .acquireErr p else .acquireFail p
 
 def run (regFirst startRm : Bool) (ok : St → Act → Bool) : St → List Act → Option St
   | s, [] => some s
